@@ -54,6 +54,13 @@ class LedgerObs(Observer):
     def on_step0(self, ai, asm, t_gap, h_gap, adiabatic):
         self.ev.append({'e': 'Step0', 'a': ai + 1})
 
+    @staticmethod
+    def _msum(asm, reg):
+        m_int, m_byp = drive.sc_mass_flows(reg)
+        tot = float(np.sum(m_int)) + (float(np.sum(m_byp))
+                                      if m_byp is not None else 0.0)
+        return int(round(tot / float(asm.flow_rate) * 16777216))
+
     def on_asm(self, ai, asm, pre, dz, t_gap, h_gap, power, adiabatic):
         reg = pre.reg
         if asm.active_region is not reg:
@@ -179,6 +186,7 @@ class LedgerObs(Observer):
         self.dzprev_next = dz
         self.ev.append({
             'e': 'AsmStep', 'a': ai + 1, 'k': self.k, 'r': int(pre.ridx),
+            'mSum': self._msum(asm, reg),
             'kind': kind, 'cls': 'const' if const else 'lag',
             'adia': int(bool(adiabatic)),
             'dH': self.qs(dH), 'qPins': self.qs(qp['pins']),
